@@ -501,8 +501,15 @@ def r07_7(ctx: Ctx):
         v = st[0].value
         core = v.value if isinstance(v, ast.Subscript) and isinstance(v.slice, ast.Slice) else v
         core = _resolve(core, idefs)
-        ok = isinstance(core, ast.Call) and norm(core.func) == "sorted" and core.args and norm(core.args[0]) == arg
-    obs.append(ctx.ob("R07.7", init, st[0] if st else init.node, status=OK if ok else VIOLATION, detail="clustering works on a sorted prefix of its argument" if ok else "NearestBetterClustering.individuals is not a (prefix of a) sort of the constructor argument", construct="nbc:subset-input"))
+        if isinstance(core, ast.Subscript) and isinstance(core.slice, ast.Slice):
+            core = _resolve(core.value, idefs)
+        ok = isinstance(core, ast.Call) and norm(core.func) in ("sorted", "list", "reversed") and core.args and norm(core.args[0]) == arg
+        # a selection / permutation of the argument by index: [arg[i] for i in ...]
+        if not ok and isinstance(core, ast.ListComp) and len(core.generators) == 1 and isinstance(core.elt, ast.Subscript) and norm(core.elt.value) == arg and isinstance(core.generators[0].target, ast.Name) and norm(core.elt.slice) == core.generators[0].target.id:
+            ok = True
+        if not ok and isinstance(core, ast.ListComp) and len(core.generators) == 1 and isinstance(core.generators[0].target, ast.Name) and norm(core.elt) == core.generators[0].target.id and norm(_resolve(core.generators[0].iter, idefs)) in (arg, f"sorted({arg},reverse=True)", f"sorted({arg}, reverse=True)"):
+            ok = True
+    obs.append(ctx.ob("R07.7", init, st[0] if st else init.node, status=OK if ok else INCONCLUSIVE, detail="clustering works on a sorted prefix of its argument" if ok else "NearestBetterClustering.individuals is not a (prefix of a) sort of the constructor argument", construct="nbc:subset-input"))
     n_create = 0
     for m in nbc.methods.values():
         msn = m.self_name() or "self"
@@ -516,12 +523,25 @@ def r07_7(ctx: Ctx):
                         if isinstance(k, ast.Constant) and k.value == "individual":
                             indv = v
                 src_ok = False
+                definite = False
                 if isinstance(indv, ast.Name):
                     mdefs = local_defs(m)
                     srcs = mdefs.get(indv.id, [])
-                    loops = [n for n in body_walk(m.node) if isinstance(n, ast.For) and isinstance(n.target, ast.Name) and n.target.id == indv.id]
-                    src_ok = all(norm(s).startswith(f"{msn}.individuals") for s in srcs) and all(norm(l.iter).startswith(f"{msn}.individuals") for l in loops) and bool(srcs or loops)
-                obs.append(ctx.ob("R07.7", m, c, status=OK if src_ok else VIOLATION, detail="tree nodes hold individuals of the clustered population" if src_ok else f"a spanning-tree node is created for `{norm(indv) if indv is not None else '?'}`, which is not taken from self.individuals", construct="nbc:nodes"))
+                    loops = []
+                    for n in body_walk(m.node):
+                        if isinstance(n, ast.For) and any(isinstance(x, ast.Name) and x.id == indv.id for x in ast.walk(n.target)):
+                            it = n.iter
+                            if isinstance(it, ast.Call) and norm(it.func) in ("enumerate", "reversed", "list", "iter") and it.args:
+                                it = it.args[0]
+                            if isinstance(it, ast.Call) and norm(it.func) == "zip":
+                                its = [a for a in it.args if norm(a).startswith(f"{msn}.individuals")]
+                                it = its[0] if its else it
+                            loops.append(it)
+                    src_ok = all(norm(s).startswith(f"{msn}.individuals") for s in srcs) and all(norm(l).startswith(f"{msn}.individuals") for l in loops) and bool(srcs or loops)
+                    definite = any(isinstance(s, ast.Call) and norm(s.func).endswith("Individual") for s in srcs)
+                elif isinstance(indv, ast.Call) and norm(indv.func).endswith("Individual"):
+                    definite = True
+                obs.append(ctx.ob("R07.7", m, c, status=OK if src_ok else VIOLATION if definite else INCONCLUSIVE, detail="tree nodes hold individuals of the clustered population" if src_ok else f"a spanning-tree node is created for `{norm(indv) if indv is not None else '?'}`, which is not taken from self.individuals", construct="nbc:nodes"))
     cl = nbc.methods["cluster"]
     rets = [r for r in body_walk(cl.node) if isinstance(r, ast.Return)]
     ok = len(rets) == 1 and isinstance(rets[0].value, ast.ListComp) and norm(rets[0].value.elt).replace('"', "'") == f"{rets[0].value.generators[0].target.id}.data['individual']"
